@@ -1220,7 +1220,29 @@ def check_l2(pid, replay=None):
 
 
 REGISTRY["C13"] = check_l2
-REGISTRY["C15"] = check_l2
+
+
+def check_c15_full(pid, replay=None):
+    """injected ticks on the full stack (exhaustive model paths, random histories) + one scenario with the REAL period tickers"""
+    if replay:
+        with open(replay) as fh:
+            doc = json.load(fh)
+        if doc.get("kind") == "realtime":
+            return replay_realtime(pid, doc)
+        return check_l2(pid, replay)
+    rc = check_l2(pid, None)
+    n, notes = realtime_part(pid, "tickfail", 2 if vlib.tier() == "thorough" else 1, kbase(pid))
+    p = os.path.join(vlib.VERIF, "evidence", pid + ".json")
+    with open(p) as fh:
+        ev = json.load(fh)
+    ev["coverage"]["realtime_scenarios"] = notes
+    ev["violations"] = ev.get("violations", 0) + n
+    with open(p, "w") as fh:
+        json.dump(ev, fh, indent=1)
+    return 1 if (rc or n) else 0
+
+
+REGISTRY["C15"] = check_c15_full
 
 _check_l1_c10 = REGISTRY["C10"]
 
@@ -1355,6 +1377,31 @@ def check_c01_full(pid, replay=None):
 
 
 REGISTRY["C01"] = check_c01_full
+
+_check_l1_c06 = REGISTRY["C06"]
+
+
+def check_c06_full(pid, replay=None):
+    """injected expiries at L1 (every interleaving the model has) + one scenario with the REAL retention timers"""
+    if replay:
+        with open(replay) as fh:
+            doc = json.load(fh)
+        if doc.get("kind") == "realtime":
+            return replay_realtime(pid, doc)
+        return _check_l1_c06(pid, replay)
+    rc = _check_l1_c06(pid, None)
+    n, notes = realtime_part(pid, "retain", 3 if vlib.tier() == "thorough" else 1, kbase(pid))
+    p = os.path.join(vlib.VERIF, "evidence", pid + ".json")
+    with open(p) as fh:
+        ev = json.load(fh)
+    ev["coverage"]["realtime_scenarios"] = notes
+    ev["violations"] = ev.get("violations", 0) + n
+    with open(p, "w") as fh:
+        json.dump(ev, fh, indent=1)
+    return 1 if (rc or n) else 0
+
+
+REGISTRY["C06"] = check_c06_full
 
 _check_c19_pure = REGISTRY["C19"]
 
@@ -1722,6 +1769,45 @@ def run_stress(binary, scen, k, race=False, timeout=300):
 STRESS_BASE = {"kind": "perio", "n": 0, "u": 0, "bulk": "reassoc", "burst": 0, "latency": 0, "deadline": 10, "seed": 1, "smfs": 0, "prods": 0, "runms": 0, "stop": False}
 
 
+def realtime_part(pid, kind, n, k, accept=()):
+    """scenarios with the REAL timers / tickers (no injected expiries): returns the number of violations reported.
+    Every verdict of these scenarios is conditional on measured times (see the harness), a slow machine yields no verdict."""
+    binary = vlib.build_test_binary("internal/pfcp")
+    nv = 0
+    notes = []
+    for j in range(n):
+        sc = dict(STRESS_BASE, id="%s-%s-%d" % (pid, kind, j), kind=kind, seed=vlib.seed() * 10 + j, deadline=10)
+        rc, txt, o = run_stress(binary, sc, k)
+        if o is None:
+            raise Infra("real-time scenario %s produced no result:\n%s" % (sc["id"], txt[-1500:]))
+        notes.append(o.get("note", ""))
+        bad = o.get("bad", "")
+        if o.get("fatal") and not bad:
+            bad = "C07:" + o["fatal"]
+        if bad.startswith(pid + ":") or any(bad.startswith(a) for a in accept) or (bad and not o.get("answered", True)):
+            nv += 1
+            doc = {"property": pid, "kind": "realtime", "scenario": sc, "tags": [bad], "note": "RT " + o.get("note", "")}
+            path = vlib.save_replay(pid, "rt-%s-%d" % (kind, j), doc)
+            log("  rejected: %s (%s)" % (bad, o.get("note", "")))
+            print("VIOLATION property=%s replay=%s" % (pid, path))
+        elif bad:
+            log("note: real-time scenario %s: verdict of another property: %s" % (sc["id"], bad))
+    log("real-time scenarios (%s): %s" % (kind, "; ".join(notes)[:600]))
+    return nv, notes
+
+
+def replay_realtime(pid, doc):
+    binary = vlib.build_test_binary("internal/pfcp")
+    rc, txt, o = run_stress(binary, doc["scenario"], kbase(pid) + 9)
+    if o is None:
+        raise Infra("real-time scenario produced no result:\n%s" % txt[-1500:])
+    log("replay: %s %s" % (o.get("bad", ""), o.get("note", "")))
+    if o.get("bad", "").startswith(pid + ":"):
+        print("VIOLATION property=%s replay=%s" % (pid, "(replayed)"))
+        return 1
+    return 0
+
+
 def c18_grid(thorough, rng):
     S = lambda **kw: dict(STRESS_BASE, **kw)
     g = [S(id="p-100x2", n=100, u=2), S(id="p-140x1", n=140, u=1), S(id="p-100x6", n=100, u=6), S(id="p-300x2", n=300, u=2),
@@ -1883,4 +1969,30 @@ def check_c17(pid, replay=None):
 
 
 REGISTRY["C17"] = check_c17
-REGISTRY["C18"] = check_c18
+def check_c18_full(pid, replay=None):
+    """the wedge grid + one scenario with the real period tickers: periodic reports must keep flowing after a failed query
+    ("every report eventually forwarded")"""
+    if replay:
+        with open(replay) as fh:
+            doc = json.load(fh)
+        if doc.get("kind") == "realtime":
+            binary = vlib.build_test_binary("internal/pfcp")
+            rc, txt, o = run_stress(binary, doc["scenario"], kbase(pid) + 9)
+            if o is not None and o.get("bad", "").startswith("C15:"):
+                print("VIOLATION property=%s replay=%s" % (pid, replay))
+                return 1
+            return 0
+        return check_c18(pid, replay)
+    rc = check_c18(pid, None)
+    n, notes = realtime_part(pid, "tickfail", 1, kbase(pid), accept=("C15:",))
+    p = os.path.join(vlib.VERIF, "evidence", pid + ".json")
+    with open(p) as fh:
+        ev = json.load(fh)
+    ev["coverage"]["realtime_scenarios"] = notes
+    ev["violations"] = ev.get("violations", 0) + n
+    with open(p, "w") as fh:
+        json.dump(ev, fh, indent=1)
+    return 1 if (rc or n) else 0
+
+
+REGISTRY["C18"] = check_c18_full
